@@ -242,10 +242,17 @@ def run_driver(binary, args, timeout=3600, env=None):
 # --------------------------------------------------------------------------- known findings
 
 def load_known(prop):
-    if not os.path.exists(KNOWN):
-        return []
-    data = json.load(open(KNOWN))
-    return [k for k in data.get("findings", []) if k["property"] == prop]
+    """Known findings: known_findings.json plus the per-property fragments known_findings.d/*.json
+    (same format).  Never written at run time."""
+    out = []
+    files = [KNOWN] if os.path.exists(KNOWN) else []
+    d = os.path.join(ROOT, "known_findings.d")
+    if os.path.isdir(d):
+        files += sorted(os.path.join(d, f) for f in os.listdir(d) if f.endswith(".json"))
+    for f in files:
+        data = json.load(open(f))
+        out += [k for k in data.get("findings", []) if k["property"] == prop]
+    return out
 
 
 def match_known(known, sig):
